@@ -210,7 +210,7 @@ CHECKS = {
         technique="Coq proof (codes, least-squares optimality) + certified relational checker evaluated by vm_compute on the implementation's data"),
     "C05": dict(
         category="proof",
-        text="Coq theorems (Properties/C05.v): soundness of the checkers -- a passing element IS the float32 straight-through sum of (exposed scale)*(integer code) with |code| <= 2^(bits-1)-1 (quantized_bits) resp. clip_min <= code <= clip_max (quantized_linear); the code fits the declared width; scale invariance of the 'auto' codes in exact arithmetic; least-squares optimality of the po2 refinement. Correspondence (relational): every group of elements sharing one exposed scale, over bits/integer/alpha/scale_axis/elements_per_scale/exponent bounds/post_training_scale and tensors incl. zero channels and 1e-5..1e5 magnitudes: scale positive, 'auto' maps the channel maximum exactly onto the top code without clipping any element, 'auto_po2' scales are powers of two within bounds, outputs finite, 2^k equivariance of 'auto' bitwise. The shape helpers behind elements_per_scale (_get_unrolled_shape / _get_rolled_back_shape) are modelled in Quant/Shape.v: rolling back what was unrolled is the identity exactly when the factor divides the dimension (with the refuting witness otherwise), the number of elements is preserved, the new axes are (dim / factor, factor) in place; the real helpers are compared with the model exhaustively over small shapes, single axes and lists of axes.",
+        text="Coq theorems (Properties/C05.v): soundness of the checkers -- a passing element IS the float32 straight-through sum of (exposed scale)*(integer code) with |code| <= 2^(bits-1)-1 (quantized_bits) resp. clip_min <= code <= clip_max (quantized_linear); the code fits the declared width; scale invariance of the 'auto' codes in exact arithmetic; least-squares optimality of the po2 refinement. Correspondence (relational): every group of elements sharing one exposed scale, over bits/integer/alpha/scale_axis/elements_per_scale/exponent bounds/post_training_scale and tensors incl. zero channels and 1e-5..1e5 magnitudes: scale positive, 'auto' maps the channel maximum exactly onto the top code without clipping any element, 'auto_po2' scales are powers of two within bounds, outputs finite, 2^k equivariance of 'auto' bitwise. The shape helpers behind elements_per_scale (_get_unrolled_shape / _get_rolled_back_shape) are modelled in Quant/Shape.v: rolling back what was unrolled is the identity exactly when the factor divides the dimension (with the refuting witness otherwise), the number of elements is preserved, the new axes are (dim / factor, factor) in place; the real helpers are compared with the model exhaustively over small shapes, single axes and lists of axes. Translator lingen.py -> coq/gen/LinGen.v (regenerated every run) + Link/LinAutoLink.v: for quantized_linear(alpha='auto') the scale formula of _get_quantization_scale_from_max_data is proved to cover its scale group -- for every multi-bit signed format, every group maximum and every element |x| <= max, the code is in range and within half a quantization step of x; unsigned: the maximum is mapped onto the top code.",
         design_ref="DESIGN.md section 5 C05, section 10, section 10.10",
         note=(TB_COMMON + "The data-dependent scale is produced by tf reductions / float32 log that are not modelled: only the exposed scale is used. 'auto' no-clipping judged with a 2^-18 band. One known finding (legacy auto scale 0 for an all-zero channel)."),
         technique="certified relational checker (soundness proved in Coq) evaluated by vm_compute on the implementation's data"),
